@@ -78,23 +78,25 @@ def l3(r):
     if out['crashed']:
         r.broken.append(out['crashed'])
     # replay every firing monitor on the real kernel under ASan/UBSan
-    confirmed = 0; seen = set()
+    # (a requires evaluated false at the boundary is only a violation of C05 when the kernel then really misbehaves: several firings of the same
+    # clause are replayed - the first ones may be harmless - until one is confirmed by the sanitizers)
+    confirmed = 0; seen = {}; done = set()
     for k in out['kpv']:
         key = (k['api'].split('|')[0], k['kernel'], k['clause'])
-        if key in seen:
+        if key in done or seen.get(key, 0) >= 25:
             continue
-        seen.add(key)
+        seen[key] = seen.get(key, 0) + 1
         rel = cm.KERNEL_FILE[k['kernel']]
         h = r.harness(group_of(rel))
         res1 = h.run([(k['kernel'], k['args'])])[0]
         if res1.get('san') or res1.get('crashed') or res1.get('timeout'):
-            confirmed += 1
+            confirmed += 1; done.add(key)
             r.violation(dict(api=key[0], kernel=k['kernel'], kind='safety', clause=k['clause'][:160]),
                         'public API call %s enters %s outside its requires (%s); replay on the real kernel under ASan/UBSan: %s'
                         % (k['api'], k['kernel'], k['clause'][:120], (res1.get('san') or 'timeout')[:200].replace('\n', ' ')),
                         witness=dict(function=k['kernel'], file=rel, args=k['args'], api=k['api'], observed=dict(sanitizer=res1.get('san', '')[:1500])))
-        else:
-            r.notes.append('L3: %s enters %s outside the stated requires (%s) but the sanitizers report nothing: requires stronger than needed, not a violation'
+        elif seen[key] == 1:
+            r.notes.append('L3: %s enters %s outside the stated requires (%s) but the sanitizers report nothing on this input: requires stronger than needed here, not a violation by itself'
                            % (key[0], k['kernel'], k['clause'][:100]))
     r.bounded_clause('L3: public Python API driven over boundary shapes (lengths 0,1,2,3,..,17), value classes (finite, NaN, +-inf, negative, huge) and option extremes; '
                      'kernel requires evaluated on the actual arguments before every kernel entry',
